@@ -261,4 +261,34 @@ example : (insertFG { fmt := { dec := false, hex := true, fixed := true }, preci
 example : (insertFG { fmt := { dec := false, hex := true, fixed := true }, precision := 0 } ⟨2, 2, 1, [0x8000000000000000, 0xff]⟩).out = "100".toList := by
   decide +kernel
 
+/-! ## (d) pinned oddities (the same inputs are corpus lines on the real library: corpus/C20/cxxio2/oddities.ops) -/
+
+-- `os.fill ('\0')`: every byte is written (until /repo 2def0d3 the text was cut at the first NUL — `cstr` — and the buffer was
+-- freed with strlen+1 instead of its allocated size, against the allocator contract of property C04)
+example : (insertQ { width := 9, fill := '\x00' } 7 3).out = ['\x00', '\x00', '\x00', '\x00', '\x00', '\x00', '7', '/', '3'] ∧
+    cstr (insertQ { width := 9, fill := '\x00' } 7 3).out = [] ∧
+    (insertFG { fmt := { dec := false, hex := true, showbase := true, internal := true }, width := 8, fill := '\x00', precision := 3 } ⟨2, -1, 1, [255]⟩).out =
+      ['-', '0', 'x', '\x00', '\x00', '\x00', 'f', 'f'] := by decide +kernel
+-- "0x": without a basefield bit both characters are consumed; alone it fails at the end of the input (eofbit and failbit), before
+-- a non-digit it fails with the x consumed and that character put back; a denominator "0x" fails the same way
+example : extractZ (mkG "0xg".toList [] { dec := false }) = ({ rest := ['g'], done := ['x', '0'], fail := true, fmt := { dec := false } }, .unchanged) ∧
+    extractZ (mkG "-0X".toList [] { dec := false }) = ({ rest := [], done := ['X', '0', '-'], eof := true, fail := true, fmt := { dec := false } }, .unchanged) ∧
+    extractQ (mkG "1/0x".toList [] { dec := false }) =
+      ({ rest := [], done := "1/0x".toList.reverse, eof := true, fail := true, fmt := { dec := false } }, .value 1, .unchanged) := by decide +kernel
+-- eofbit is cleared after a successful read that ran into the end of the input (std::num_get leaves it set): mpz, mpq, mpf
+example : extractZ (mkG "12".toList [] {}) = ({ rest := [], done := ['2', '1'] }, .value 12) ∧
+    extractQ (mkG "5".toList [] {}) = ({ rest := [], done := ['5'] }, .value 5, .value 1) ∧
+    extractQ (mkG "1/2".toList [] {}) = ({ rest := [], done := ['2', '/', '1'] }, .value 1, .value 2) ∧
+    scanF (mkG "1.5".toList [] {}) = ({ rest := [], done := ['5', '.', '1'] }, some "1.5".toList) ∧
+    (extractZ (mkG "12".toList [] {})).1.good = true := by decide +kernel
+-- ... and stays after a failed one
+example : (extractZ (mkG "-".toList [] {})).1.eof = true ∧ (scanF (mkG "1e+".toList [] {})).1.eof = true := by decide +kernel
+-- mpq: "1/-2" the denominator takes its own sign and nothing is canonicalised; "1/0" stores a zero denominator without any error;
+-- "4/2" stays 4/2; "1/" stores the numerator, sets failbit (and eofbit) and leaves the denominator; no white space after the slash
+example : (extractQ (mkG "1/-2".toList [] {})).2 = (.value 1, .value (-2)) ∧ (extractQ (mkG "1/-2".toList [] {})).1.good = true ∧
+    (extractQ (mkG "1/0".toList [] {})).2 = (.value 1, .value 0) ∧ (extractQ (mkG "1/0".toList [] {})).1.good = true ∧
+    (extractQ (mkG "4/2".toList [] {})).2 = (.value 4, .value 2) ∧
+    extractQ (mkG "1/".toList [] {}) = ({ rest := [], done := ['/', '1'], eof := true, fail := true }, .value 1, .unchanged) ∧
+    extractQ (mkG "1/ 2".toList [] {}) = ({ rest := " 2".toList, done := ['/', '1'], fail := true }, .value 1, .unchanged) := by decide +kernel
+
 end Mpir.CxxIo
